@@ -24,7 +24,7 @@ func newOr(astNode schema.ASTNode) *Or {
 	}
 
 	or := Or{
-		AnyOf:       newAnyOf(rule.Items),
+		AnyOf:       newAnyOf(rule.Items, astNode),
 		Example:     ex,
 		Nullable:    newNullable(astNode),
 		Description: newDescription(astNode),
@@ -33,7 +33,7 @@ func newOr(astNode schema.ASTNode) *Or {
 	return &or
 }
 
-func newAnyOf(rr []schema.RuleASTNode) []Node {
+func newAnyOf(rr []schema.RuleASTNode, annotated schema.ASTNode) []Node {
 	nn := make([]Node, 0, len(rr))
 
 	for _, r := range rr {
@@ -42,6 +42,15 @@ func newAnyOf(rr []schema.RuleASTNode) []Node {
 
 		if p, ok := node.(*Primitive); ok { // fix empty string Example. See JSight {or: [ {type: "integer"} ]}
 			p.Example = nil
+			if newConst(mock) != nil {
+				// An alternative has no example of its own: its constant is the
+				// annotated value (a reference has none to give).
+				p.Enum = nil
+				if annotated.TokenType != schema.TokenTypeShortcut {
+					p.Enum = makeEmptyEnum()
+					p.Enum.append(newExample(annotated.Value, internal.IsString(annotated)).jsonValue())
+				}
+			}
 			node = p
 		}
 
